@@ -111,19 +111,32 @@ def g_retrieval(prop):
     return dict(name='retrieval', bound='none (tier P): the inspected object is symbolic - presence of every attribute the units touch in the '
                 'instance dict / on the type, every external outcome (inspect.signature, getsource, ast.parse, forger, hint, descriptors) '
                 'and every exception class are solver variables; kinds of object: function, callable instance; class of the parsed node enumerated',
-                exhaustive=True, tasks=[dict(module='contracts.retrieval', want=[prop], args=a, cross=False) for a in T])
+                exhaustive=True, tasks=_parts([dict(module='contracts.retrieval', want=[prop], args=a, cross=False) for a in T],
+                                              lambda t: 16 if (t['args']['mode'] == 'forged' and t['args'].get('kind') == 'instance') else 1))
+
+
+def _parts(tasks, how_many):
+    """spread a big unit over several pool tasks: each explores one of n disjoint parts of its decision tree (harness.explore)"""
+    out = []
+    for t in tasks:
+        n = how_many(t)
+        if n <= 1:
+            out.append(t)
+        else:
+            out += [dict(t, part=(i, n), weight=100) for i in range(n)]
+    return out
 
 
 def g_dropin(prop, bound):
     from contracts.dropin import OTHERS
-    T = [dict(unit='class')]
+    T = [dict(unit='class'), dict(unit='ua_twice', shape=(0, 1, 0, 0, 0))]
     for k in range(5):
         T += [dict(unit='param_eq', kind=k, other=o) for o in OTHERS]
         T += [dict(unit='param_replace', kind=k, other=o) for o in ('keep', 'override')]
     for sh in harness.shapes(*bound):
         T += [dict(unit='sig_eq', shape=sh, other=o) for o in OTHERS]
         T += [dict(unit='sig_replace', shape=sh, other=o) for o in ('keep', 'override')]
-        T += [dict(unit='sig_init', shape=sh)]
+        T += [dict(unit='sig_init', shape=sh), dict(unit='sig_init_plain', shape=sh), dict(unit='sig_replace_plain', shape=sh)]
         if sh[3] == 0:
             T += [dict(unit='sig_evaluated', shape=sh)]
     return dict(name='upgraded inspect classes', bound='parameter-level units: none (tier P, all five kinds, every field symbolic); signature-level units: ' + bound_text(bound) +
@@ -223,9 +236,13 @@ def plan(prop, tier, seed=0):
     BS = (1, 1, 1, 2) if q else (1, 2, 1, 3)        # expensive pair units (forwards)
     if prop == 'C01':
         G += [g_merge(prop, B2, 2), g_merge(prop, B3, 3, 400 if q else 5000, seed), g_folds(prop)]
+        if q:
+            G += [g_merge(prop, (2, 0, 0, 2), 2)]        # several positional-only parameters against star parameters (within B2 of the thorough tier)
     elif prop == 'C09':
         G += [g_merge(prop, B2, 2), g_merge(prop, B3, 3, 200 if q else 2500, seed), g_mask(prop, B1, 0, 'zero'),
               g_embed(prop, B3 if q else B2, 'embed'), g_merge_laws(prop, B1, B3, 300 if q else 2500, seed)]
+        if q:
+            G += [g_merge(prop, (2, 0, 0, 2), 2)]
     elif prop == 'C02':
         G += [g_embed(prop, B2, 'embed'), g_embed(prop, (1, 1, 0, 1) if q else B3, 'fold', 300 if q else 6000, seed)]
     elif prop == 'C03':
@@ -242,19 +259,21 @@ def plan(prop, tier, seed=0):
     elif prop in ('C08', 'C10', 'C11', 'C15', 'C16'):
         if prop in ('C16', 'C08', 'C15'):
             G += [g_merge_bare(prop, (1, 1, 1, 2))]
+        if prop == 'C16':
+            G += [g_partial(prop, (1, 1, 1, 2), 0, 'stored')]
         if prop in ('C08', 'C16'):
             G += [g_shared_callable(prop, (0, 1, 1, 1) if q else (1, 1, 1, 2))]
         G += [g_merge(prop, B2, 2), g_merge(prop, B3, 3, 150 if q else 4000, seed), g_mask(prop, B1, 1), g_embed(prop, B3 if q else B2, 'embed'),
               g_forwards(prop, BS, 1, 60 if q else 1200, seed)]
         if prop in ('C08', 'C10', 'C11'):
-            G += [g_partial(prop, B1, 1), g_partial(prop, B1 if q else (1, 2, 1, 3), 0, 'plain')]
+            G += [g_partial(prop, B1, 1), g_partial(prop, B1 if q else (1, 2, 1, 3), 0, 'plain'), g_partial(prop, B1 if q else (1, 2, 1, 3), 0, 'wrapped')]
     if prop == 'C15':
         G += [g_folds(prop)]
     if prop == 'C12':
         G += [g_modifiers(prop, (1, 2, 1, 3) if q else (1, 3, 1, 4), q)]
     if prop == 'C11':
         g = g_dropin(prop, B1)
-        g['tasks'] = [t for t in g['tasks'] if t['args']['unit'] in ('sig_evaluated', 'param_replace', 'sig_replace')]
+        g['tasks'] = [t for t in g['tasks'] if t['args']['unit'] in ('sig_evaluated', 'param_replace', 'sig_replace', 'ua_twice')]
         g['name'] = 'evaluated() / replace() of the upgraded classes'
         G += [g]
         g = g_modifiers(prop, (1, 2, 1, 3), True)
